@@ -76,7 +76,11 @@ func EscBody(t *rapid.T) string {
 // RichToken returns the text of one token whose value contains escaped characters.
 func RichToken(t *rapid.T) string {
 	body := EscBody(t)
-	switch rapid.IntRange(0, 9).Draw(t, "tk") {
+	switch rapid.IntRange(0, 11).Draw(t, "tk") {
+	case 10, 11:
+		// a bad url: white space inside the unquoted value, then remnants that may hold escapes (an escaped
+		// ")" does not end it)
+		return "url(" + body + rapid.SampledFrom([]string{" ", "\n", "\t ", "  "}).Draw(t, "uws") + EscBody(t) + rapid.SampledFrom([]string{")", " )", ") x", " " + "b) c"}).Draw(t, "uend")
 	case 0:
 		return "\"" + body + "\""
 	case 1:
